@@ -1,8 +1,26 @@
+//! Harness over `p2panda-encryption` (features `test_utils` = data_scheme + message_scheme;
+//! `p2panda-core` without `test_utils`, i.e. the wall clock is the real `SystemTime`).
+//!
+//! C34 message ratchet windows, C35 group data encryption agreement / exclusion, C36 latest group
+//! secret, C37 two-party messaging interleavings and replays, C38 key-bundle validity.
+
+mod c34;
+mod c35;
+mod c36;
+mod c37;
+mod c38;
+mod util;
+
 use vh_common::Args;
 
 fn main() {
     let args = Args::parse();
     match args.prop.as_str() {
-        other => panic!("vh-enc does not serve {other} yet"),
+        "C34" => c34::run(&args),
+        "C35" => c35::run(&args),
+        "C36" => c36::run(&args),
+        "C37" => c37::run(&args),
+        "C38" => c38::run(&args),
+        other => panic!("vh-enc does not serve {other}"),
     }
 }
